@@ -33,7 +33,7 @@ def sh(cmd, timeout=3000, cwd=None, env=None):
 
 
 def run_demo():
-    env = dict(os.environ, PYTHONPATH=TREE)
+    env = dict(os.environ, PYTHONPATH=TREE + (':' + os.path.join(VERIF, '.deps') if os.environ.get('SEED_NUMPY') == '1' else ''))
     return sh(f'timeout 900 /venv/bin/python {demo}', cwd=d, env=env, timeout=1000)
 
 
